@@ -7,4 +7,8 @@ cd /verif/harness || exit 2
 if ! cargo build --release --offline >/verif/.build.log 2>&1; then
   echo "INCONCLUSIVE: harness does not build against /repo (see /verif/.build.log)"; tail -20 /verif/.build.log; exit 2
 fi
+if [ "$TIER" = thorough ]; then
+  # coverage-guided supplement; failure to build it only skips that part
+  (cd /verif/fuzz && cp /verif/harness/Cargo.lock . 2>/dev/null; cargo +nightly fuzz build --fuzz-dir /verif/fuzz -s none history >/verif/.fuzzbuild.log 2>&1) || echo "note: fuzz target did not build (see /verif/.fuzzbuild.log); fuzz part will be skipped"
+fi
 exec ./target/release/mverif check "$ID" --tier "$TIER" --seed "${VERIF_SEED:-20260925}" "$@"
